@@ -530,6 +530,11 @@ def r15_8(run, model):
 
 
 def run(run, model):
+    # the interface hash is a function of the sources: a hash-ordered iteration that reaches an ordered sink in the front end reorders the
+    # exported tables, the hash differs from build to build and an up-to-date dependent is refused (or, worse, two builds of one source
+    # are taken for two interfaces) - shared with C13 R13.1
+    from rules import c13 as _c13h
+    run.try_rule(_c13h.r13_1, _c13h.Ctx(run, model))
     mir = Mir(run.facts)
     reach = run.try_rule(r15_1, model, mir)
     run.try_rule(r15_2, model, mir, reach)
